@@ -535,6 +535,7 @@ class ModuleTemplate(Template):
 
         self.module = module
         self.filename = template_filename
+        self.module_directory = None
         ModuleInfo(
             module,
             module_filename,
